@@ -280,8 +280,8 @@ Definition verify_msg_against_app_impl (s : sess) (m : minput) : sess * option r
   match rej_of_verdict (mi_valid m) with
   | Some r => (s, Some r)
   | None =>
-      let s1 := if is_admin (mi_type m) then log_cb s (CbFromAdmin (mi_type m) (mi_seq m))
-                else log_cb s (CbFromApp (mi_seq m) (s_tgt s)) in
+      let s1 := if is_admin (mi_type m) then log_cb s (CbFromAdmin (mi_type m) (mi_seq m) (facts_of m))
+                else log_cb s (CbFromApp (mi_seq m) (s_tgt s) (mi_app m) (facts_of m)) in
       (s1, rej_of_verdict (mi_app m))
   end.
 
@@ -451,7 +451,7 @@ Fixpoint resend_loop (keys : list Z) (s : sess) (in_reply : minput) (seq_num nex
   end.
 
 Definition resend_messages (s : sess) (b e : Z) (in_reply : minput) : sess :=
-  if c_disable_persist (s_cfg s) then generate_sequence_reset s b (e + 1) in_reply
+  if c_disable_persist (s_cfg s) then (if e <? b then s else generate_sequence_reset s b (e + 1) in_reply)
   else
     let '(s1, seq_num, next_seq) := resend_loop (stored_keys_in b e (s_msgs s)) s in_reply b b in
     if seq_num =? next_seq then s1 else generate_sequence_reset s1 seq_num next_seq in_reply.
@@ -554,27 +554,28 @@ Definition resend_state_fix_msg_in (s : sess) (stash : option (list (Z * minput)
   let '(s1, next) := in_session_fix_msg_in s m in
   if negb (is_logged_on next) then (s1, next) else
   let st := shared_stash stash next in
-  if negb (cur_end =? 0) && (cur_end <? s_tgt s1) then
-    match send_resend_request s1 (s_tgt s1) range_end with
-    | (s2, SResend _ c e) => (s2, SResend st c e)
-    | (s2, other) => (s2, other)
+  (* deliver the kept messages that are next in sequence first *)
+  let l := match st with Some l => l | None => [] end in
+  let '(s2, l', next2, still) := resend_drain (S (length l)) s1 l next in
+  if negb still then (s2, next2) else
+  let st' := match st with Some _ => Some l' | None => None end in
+  if negb (cur_end =? 0) && (cur_end <? s_tgt s2) && (s_tgt s2 <=? range_end) then
+    match send_resend_request s2 (s_tgt s2) range_end with
+    | (s3, SResend _ c e) => (s3, SResend st' c e)
+    | (s3, other) => (s3, other)
     end
   else
   match mi_gapfill m with
-  | FBad => (s1, SLatent)                                  (* handleStateError *)
+  | FBad => (s2, SLatent)                                  (* handleStateError *)
   | gf =>
     let g := match gf with FVal true => true | _ => false end in
-    if g && negb (cur_end =? 0) && (cur_end =? s_tgt s1) then
-      match send_resend_request s1 (s_tgt s1) range_end with
-      | (s2, SResend _ c e) => (s2, SResend st c e)
-      | (s2, other) => (s2, other)
+    if g && negb (cur_end =? 0) && (cur_end =? s_tgt s2) then
+      match send_resend_request s2 (s_tgt s2) range_end with
+      | (s3, SResend _ c e) => (s3, SResend st' c e)
+      | (s3, other) => (s3, other)
       end
-    else
-      let l := match st with Some l => l | None => [] end in
-      let '(s2, l', next2, still) := resend_drain (S (length l)) s1 l next in
-      if negb still then (s2, next2)
-      else if s_tgt s2 <=? range_end then (s2, SResend (match st with Some _ => Some l' | None => None end) cur_end range_end)
-      else (s2, next2)
+    else if s_tgt s2 <=? range_end then (s2, SResend st' cur_end range_end)
+    else (s2, next2)
   end.
 
 (* State.FixMsgIn *)
